@@ -486,7 +486,9 @@ package secp256k1
 //@   assert xbytes@ptCompressed#3: len(ptCompressed) == 33 && ptCompressed[0] == 2 + recoveryID % 2 && recx(val(xScalar), recoveryID) < P && os2ip(ptCompressed[1:33]) == recx(val(xScalar), recoveryID) && fp(os2ip(ptCompressed[1:33])) == atom(fp(recx(val(xScalar), recoveryID)))
 //@   split case recoveryID < 4 && recx(val(xScalar), recoveryID) < P && issq(pow(atom(fp(recx(val(xScalar), recoveryID))), 3) + 7)
 //@   ensures (recoveryID < 4 && recx(val(xScalar), recoveryID) < P && issq(pow(atom(fp(recx(val(xScalar), recoveryID))), 3) + 7)) <==> (result1 == nil)
-//@   ensures (recoveryID < 4 && recx(val(xScalar), recoveryID) < P && issq(pow(atom(fp(recx(val(xScalar), recoveryID))), 3) + 7)) ==> result0.isValid && val(result0.z) == 1 && val(result0.x) == fp(recx(val(xScalar), recoveryID)) && onaff(val(result0.x), val(result0.y)) && lift(val(result0.y)) % 2 == recoveryID % 2 && abs(result0) == aff(val(result0.x), val(result0.y))
+//@   ensures (recoveryID < 4 && recx(val(xScalar), recoveryID) < P && issq(pow(atom(fp(recx(val(xScalar), recoveryID))), 3) + 7)) ==> result0.isValid && val(result0.z) == 1 && val(result0.x) == fp(recx(val(xScalar), recoveryID)) && onaff(val(result0.x), val(result0.y)) && lift(val(result0.y)) % 2 == recoveryID % 2 && abs(result0) == aff(val(result0.x), val(result0.y)) && abs(result0) == ptxy(atom(fp(recx(val(xScalar), recoveryID))), recoveryID % 2) && ptxy(atom(fp(recx(val(xScalar), recoveryID))), recoveryID % 2) != O
+//@   using ptxy_def(val(result0.x), val(result0.y))
+//@   using aff_coords(val(result0.x), val(result0.y))
 //@   ensures !(recoveryID < 4 && recx(val(xScalar), recoveryID) < P && issq(pow(atom(fp(recx(val(xScalar), recoveryID))), 3) + 7)) ==> result0 == nil
 //@   fresh result0
 //@
